@@ -832,6 +832,116 @@ func vC11CommitObsCoq(ob Observation) string {
 	return cApp("mkCobs", moS, toS, foS, vC11Disc(ob.DiscoveryObs.Addresses), vC11FChain(ob.FChain))
 }
 
+// one commit round: phase (0 SelectingRangesForReport, 1 BuildingReport, 2 WaitingForReportTransmission), retry query,
+// previous outcome and query as the plugins receive them
+type vC11CommitRound struct {
+	phase  int
+	retry  bool
+	outCtx ocr3types.OutcomeContext
+	qb     []byte
+}
+
+func vC11CommitGenRound(t *testing.T, r *vRand, w *vC11World) vC11CommitRound {
+	phase := r.Intn(3)
+	retry := phase == 1 && r.Chance(1, 4)
+	prev := Outcome{}
+	switch phase {
+	case 1:
+		prev.MerkleRootOutcome.OutcomeType = merkleroot.ReportIntervalsSelected
+		for _, ch := range w.Ranges {
+			prev.MerkleRootOutcome.RangesSelectedForReport = append(prev.MerkleRootOutcome.RangesSelectedForReport,
+				plugintypes.ChainRange{ChainSel: cciptypes.ChainSelector(ch), SeqNumRange: cciptypes.NewSeqNumRange(10, cciptypes.SeqNum(10+r.Intn(3)))})
+		}
+	case 2:
+		prev.MerkleRootOutcome.OutcomeType = merkleroot.ReportGenerated
+	}
+	prevB, err := prev.Encode()
+	if err != nil {
+		t.Fatal(err)
+	}
+	qb, err := Query{MerkleRootQuery: merkleroot.Query{RetryRMNSignatures: retry}}.Encode()
+	if err != nil {
+		t.Fatal(err)
+	}
+	return vC11CommitRound{phase, retry, ocr3types.OutcomeContext{SeqNr: 5, PreviousOutcome: prevB}, qb}
+}
+
+// Observation of every oracle of the world, each fed to ValidateObservation of every oracle; one case per observer.
+// mkIn builds the Coq input from (failing calls, reader state, observer)
+func vC11CommitRunWorld(t *testing.T, ctx context.Context, sink *vSink, sinkName string, c *vC11Cfg, w *vC11World, plugins []*Plugin,
+	rd vC11CommitRound, mkIn func(flS, stS string, o int) string, clsPre string, extra map[string]any) {
+	phase, retry, outCtx, qb := rd.phase, rd.retry, rd.outCtx, rd.qb
+	flS, stS := w.coq()
+	for k, o := range c.Oracles {
+		var obsB []byte
+		panicMsg := ""
+		status := func() (s string) {
+			defer func() {
+				if e := recover(); e != nil {
+					s = "Panic"
+					panicMsg = fmt.Sprint(e)
+				}
+			}()
+			b, err := plugins[k].Observation(ctx, outCtx, qb)
+			if err != nil {
+				return "Err"
+			}
+			obsB = b
+			return "Ok"
+		}()
+		out := status
+		var verdicts []string
+		nfields := 0
+		if status == "Ok" {
+			dec, err := DecodeCommitPluginObservation(obsB)
+			if err != nil {
+				t.Fatal(err)
+			}
+			out = cApp("Ok", vC11CommitObsCoq(dec))
+			nfields = len(dec.MerkleRootObs.MerkleRoots) + len(dec.MerkleRootObs.OnRampMaxSeqNums) + len(dec.MerkleRootObs.OffRampNextSeqNums) +
+				len(dec.TokenPriceObs.FeedTokenPrices) + len(dec.ChainFeeObs.FeeComponents) + len(dec.DiscoveryObs.Addresses)
+			for j := range c.Oracles {
+				v := func() (s string) {
+					defer func() {
+						if e := recover(); e != nil {
+							s = "false"
+						}
+					}()
+					if err := plugins[j].ValidateObservation(ctx, outCtx, qb,
+						types.AttributedObservation{Observation: obsB, Observer: commontypes.OracleID(o)}); err != nil {
+						return "false"
+					}
+					return "true"
+				}()
+				verdicts = append(verdicts, v)
+			}
+		}
+		in := mkIn(flS, stS, o)
+		partial := len(c.role(o)) < len(c.Chains)
+		cls := clsPre + []string{"selecting", "building", "waiting"}[phase]
+		if !w.Init {
+			cls = clsPre + "discovery-only"
+		}
+		if !c.reads(o, c.Dest) {
+			cls += "/no-dest"
+		} else if partial {
+			cls += "/partial"
+		} else {
+			cls += "/full"
+		}
+		if len(w.FailList) > 0 {
+			cls += "/failing-calls"
+		}
+		show := map[string]any{"oracles": c.Oracles, "readers": c.Readers, "dest": c.Dest, "feed": c.Feed, "observer": o,
+			"phase": phase, "retry": retry, "init": w.Init, "failing_calls": w.FailList, "status": status, "panic": panicMsg,
+			"observation": string(obsB), "verdicts": verdicts}
+		for kk, v := range extra {
+			show[kk] = v
+		}
+		sink.Emit(sinkName, cls, partial && nfields > 0, "("+in+", "+cPair(out, cList(verdicts))+")", show)
+	}
+}
+
 func TestVerif_C11_commit(t *testing.T) {
 	ctx := context.Background()
 	vC11FullRanges = true
@@ -846,97 +956,13 @@ func TestVerif_C11_commit(t *testing.T) {
 			failMode = 0
 		}
 		w := vC11GenWorld(r, c, failMode)
-		phase := r.Intn(3)
-		retry := phase == 1 && r.Chance(1, 4)
-		prev := Outcome{}
-		switch phase {
-		case 1:
-			prev.MerkleRootOutcome.OutcomeType = merkleroot.ReportIntervalsSelected
-			for _, ch := range w.Ranges {
-				prev.MerkleRootOutcome.RangesSelectedForReport = append(prev.MerkleRootOutcome.RangesSelectedForReport,
-					plugintypes.ChainRange{ChainSel: cciptypes.ChainSelector(ch), SeqNumRange: cciptypes.NewSeqNumRange(10, cciptypes.SeqNum(10+r.Intn(3)))})
-			}
-		case 2:
-			prev.MerkleRootOutcome.OutcomeType = merkleroot.ReportGenerated
-		}
-		prevB, err := prev.Encode()
-		if err != nil {
-			t.Fatal(err)
-		}
-		qb, err := Query{MerkleRootQuery: merkleroot.Query{RetryRMNSignatures: retry}}.Encode()
-		if err != nil {
-			t.Fatal(err)
-		}
-		outCtx := ocr3types.OutcomeContext{SeqNr: 5, PreviousOutcome: prevB}
+		rd := vC11CommitGenRound(t, r, w)
 		plugins := make([]*Plugin, len(c.Oracles))
 		for k, o := range c.Oracles {
 			plugins[k] = vC11CommitPlugin(ctx, w, o)
 		}
-		flS, stS := w.coq()
-		for k, o := range c.Oracles {
-			var obsB []byte
-			panicMsg := ""
-			status := func() (s string) {
-				defer func() {
-					if e := recover(); e != nil {
-						s = "Panic"
-						panicMsg = fmt.Sprint(e)
-					}
-				}()
-				b, err := plugins[k].Observation(ctx, outCtx, qb)
-				if err != nil {
-					return "Err"
-				}
-				obsB = b
-				return "Ok"
-			}()
-			out := status
-			var verdicts []string
-			nfields := 0
-			if status == "Ok" {
-				dec, err := DecodeCommitPluginObservation(obsB)
-				if err != nil {
-					t.Fatal(err)
-				}
-				out = cApp("Ok", vC11CommitObsCoq(dec))
-				nfields = len(dec.MerkleRootObs.MerkleRoots) + len(dec.MerkleRootObs.OnRampMaxSeqNums) + len(dec.MerkleRootObs.OffRampNextSeqNums) +
-					len(dec.TokenPriceObs.FeedTokenPrices) + len(dec.ChainFeeObs.FeeComponents) + len(dec.DiscoveryObs.Addresses)
-				for j := range c.Oracles {
-					v := func() (s string) {
-						defer func() {
-							if e := recover(); e != nil {
-								s = "false"
-							}
-						}()
-						if err := plugins[j].ValidateObservation(ctx, outCtx, qb,
-							types.AttributedObservation{Observation: obsB, Observer: commontypes.OracleID(o)}); err != nil {
-							return "false"
-						}
-						return "true"
-					}()
-					verdicts = append(verdicts, v)
-				}
-			}
-			in := "let fl := " + flS + " in " + cTup(c.coq(), "fl", stS, cNi(phase), cBool(retry), cNi(o))
-			partial := len(c.role(o)) < len(c.Chains)
-			cls := []string{"selecting", "building", "waiting"}[phase]
-			if !w.Init {
-				cls = "discovery-only"
-			}
-			if !c.reads(o, c.Dest) {
-				cls += "/no-dest"
-			} else if partial {
-				cls += "/partial"
-			} else {
-				cls += "/full"
-			}
-			if len(w.FailList) > 0 {
-				cls += "/failing-calls"
-			}
-			sink.Emit("C11_commit", cls, partial && nfields > 0, "("+in+", "+cPair(out, cList(verdicts))+")",
-				map[string]any{"oracles": c.Oracles, "readers": c.Readers, "dest": c.Dest, "feed": c.Feed, "observer": o,
-					"phase": phase, "retry": retry, "init": w.Init, "failing_calls": w.FailList, "status": status, "panic": panicMsg,
-					"observation": string(obsB), "verdicts": verdicts})
-		}
+		vC11CommitRunWorld(t, ctx, sink, "C11_commit", c, w, plugins, rd, func(flS, stS string, o int) string {
+			return "let fl := " + flS + " in " + cTup(c.coq(), "fl", stS, cNi(rd.phase), cBool(rd.retry), cNi(o))
+		}, "", nil)
 	}
 }
